@@ -131,17 +131,24 @@ class Celestial(Dynamics, metaclass=ABCMeta):
         Returns:
             ``ndarray``: updated state vector after applying any events.
         """
-        # Save original shape of the input state
+        # [NOTE]: `solve_ivp` only reports the first of several terminal events that occur at the same
+        #   time, so events that are due at the time integration stopped must be applied as well.
+        stop_times = [times[-1] for times in t_events if times.size > 0]
         for event_index, event in enumerate(events):
             if t_events[event_index].size > 0:
                 current_time = t_events[event_index][-1]
-                if isinstance(event, ScheduledFiniteThrust):
-                    self.finite_thrust = event.getStateChangeCallback(current_time)
-                else:
-                    current_state += event.getStateChange(current_time, current_state[:, 0])[
-                        :,
-                        None,
-                    ]
+            elif stop_times and event(max(stop_times), current_state[:, 0]) == 0.0:
+                current_time = max(stop_times)
+            else:
+                continue
+
+            if isinstance(event, ScheduledFiniteThrust):
+                self.finite_thrust = event.getStateChangeCallback(current_time)
+            else:
+                current_state += event.getStateChange(current_time, current_state[:, 0])[
+                    :,
+                    None,
+                ]
 
         return current_state
 
